@@ -8,6 +8,7 @@ import (
 	"os"
 	"os/exec"
 	"path/filepath"
+	"reflect"
 	"strconv"
 	"strings"
 )
@@ -22,6 +23,7 @@ func skeletonOf(fset *token.FileSet, fd *ast.FuncDecl) ([]string, error) {
 	if fd == nil || fd.Body == nil {
 		return nil, fmt.Errorf("function not found")
 	}
+	canonicalize(fd)
 	var out []string
 	var walk func(s ast.Stmt) error
 	block := func(b *ast.BlockStmt) error {
@@ -171,6 +173,9 @@ func skeletonOf(fset *token.FileSet, fd *ast.FuncDecl) ([]string, error) {
 			if !ok {
 				return fmt.Errorf("unexpected declaration")
 			}
+			if gd.Tok == token.CONST || gd.Tok == token.TYPE {
+				return nil // no run-time effect: constants are resolved to their values where they are used
+			}
 			for _, sp := range gd.Specs {
 				out = append(out, gd.Tok.String()+" "+limText(fset, sp))
 			}
@@ -187,8 +192,23 @@ func skeletonOf(fset *token.FileSet, fd *ast.FuncDecl) ([]string, error) {
 	return out, nil
 }
 
-// isLogOrMetricsCall: <…>.logger.Printf/Println/Print, logger.Printf…, metrics.<…>
+// calls recognised as logging before the locals were renamed
+var logCallSet = map[*ast.CallExpr]bool{}
+
+// isLogOrMetricsCall: <…>.logger.Printf/Println/Print, logger.Printf…, metrics.<…>, or
+// Printf/Println/Print on a parameter or variable declared as *log.Logger (whatever its name).
 func isLogOrMetricsCall(c *ast.CallExpr) bool {
+	if logCallSet[c] {
+		return true
+	}
+	if sel, ok := c.Fun.(*ast.SelectorExpr); ok {
+		if id, ok := sel.X.(*ast.Ident); ok && id.Obj != nil {
+			if fld, ok := id.Obj.Decl.(*ast.Field); ok && exprString(fld.Type) == "*log.Logger" &&
+				(sel.Sel.Name == "Printf" || sel.Sel.Name == "Println" || sel.Sel.Name == "Print") {
+				return true
+			}
+		}
+	}
 	ch := selChain(c.Fun)
 	if ch == "" {
 		return false
@@ -262,4 +282,238 @@ func moduleDir(repo, module string) (string, error) {
 		return "", fmt.Errorf("module source %s not in the module cache", dir)
 	}
 	return dir, nil
+}
+
+// ---- canonical form -------------------------------------------------------------------
+//
+// Before a function is rendered it is brought into a canonical form, so that spellings
+// with the same meaning give the same skeleton:
+//   - identifiers that name a constant of the same file (package level or local) whose value
+//     is a literal or a constant integer expression are replaced by that value
+//     (`maxBufSize` -> 8192): constants are pinned by VALUE, hoisting a literal into a const
+//     or back changes nothing;
+//   - fmt.Sprintf with a literal format whose only verbs are %s is replaced by the
+//     concatenation it denotes (`fmt.Sprintf("A_%s=%s", x, y)` -> `"A_" + x + "=" + y`);
+//   - local variables, parameters and the receiver are renamed v0, v1, … in the order in which
+//     they first occur (alpha-normalisation); fields, methods, package-level names and labels
+//     keep their names.
+
+var canonDone = map[*ast.FuncDecl]bool{}
+
+func rewriteExprs(root ast.Node, f func(ast.Expr) ast.Expr) {
+	ast.Inspect(root, func(n ast.Node) bool {
+		if n == nil {
+			return false
+		}
+		v := reflect.ValueOf(n)
+		if v.Kind() == reflect.Ptr {
+			v = v.Elem()
+		}
+		if v.Kind() != reflect.Struct {
+			return true
+		}
+		for i := 0; i < v.NumField(); i++ {
+			fv := v.Field(i)
+			if !fv.CanSet() {
+				continue
+			}
+			switch fv.Kind() {
+			case reflect.Interface:
+				if e, ok := fv.Interface().(ast.Expr); ok && e != nil {
+					if ne := f(e); ne != e {
+						fv.Set(reflect.ValueOf(ne))
+					}
+				}
+			case reflect.Slice:
+				for j := 0; j < fv.Len(); j++ {
+					el := fv.Index(j)
+					if el.Kind() != reflect.Interface {
+						continue
+					}
+					if e, ok := el.Interface().(ast.Expr); ok && e != nil {
+						if ne := f(e); ne != e {
+							el.Set(reflect.ValueOf(ne))
+						}
+					}
+				}
+			}
+		}
+		return true
+	})
+}
+
+// constValue: the literal a constant identifier stands for, if it can be determined.
+func constValue(id *ast.Ident) (ast.Expr, bool) {
+	if id.Obj == nil || id.Obj.Kind != ast.Con {
+		return nil, false
+	}
+	vs, ok := id.Obj.Decl.(*ast.ValueSpec)
+	if !ok {
+		return nil, false
+	}
+	for i, n := range vs.Names {
+		if n.Name != id.Obj.Name || i >= len(vs.Values) {
+			continue
+		}
+		if bl, ok := vs.Values[i].(*ast.BasicLit); ok && (bl.Kind == token.STRING || bl.Kind == token.CHAR) {
+			return &ast.BasicLit{Kind: bl.Kind, Value: bl.Value}, true
+		}
+		if v, err := limEval(vs.Values[i]); err == nil {
+			return &ast.BasicLit{Kind: token.INT, Value: strconv.FormatInt(v, 10)}, true
+		}
+	}
+	return nil, false
+}
+
+// sprintfAsConcat: fmt.Sprintf(<literal with only %s verbs>, args…) as a + chain.
+func sprintfAsConcat(c *ast.CallExpr) (ast.Expr, bool) {
+	if selChain(c.Fun) != "fmt.Sprintf" || len(c.Args) < 1 {
+		return nil, false
+	}
+	format, ok := strLit(c.Args[0])
+	if !ok {
+		return nil, false
+	}
+	segs := strings.Split(format, "%s")
+	if len(segs)-1 != len(c.Args)-1 {
+		return nil, false
+	}
+	for _, sg := range segs {
+		if strings.Contains(sg, "%") {
+			return nil, false // another verb (or %%): not a plain concatenation
+		}
+	}
+	var parts []ast.Expr
+	for i, sg := range segs {
+		if sg != "" {
+			parts = append(parts, &ast.BasicLit{Kind: token.STRING, Value: strconv.Quote(sg)})
+		}
+		if i < len(c.Args)-1 {
+			parts = append(parts, c.Args[i+1])
+		}
+	}
+	if len(parts) == 0 {
+		return &ast.BasicLit{Kind: token.STRING, Value: `""`}, true
+	}
+	e := parts[0]
+	for _, p := range parts[1:] {
+		e = &ast.BinaryExpr{X: e, Op: token.ADD, Y: p}
+	}
+	return e, true
+}
+
+func canonicalize(fd *ast.FuncDecl) {
+	if fd == nil || canonDone[fd] {
+		return
+	}
+	canonDone[fd] = true
+	ast.Inspect(fd, func(n ast.Node) bool {
+		if c, ok := n.(*ast.CallExpr); ok && isLogOrMetricsCall(c) {
+			logCallSet[c] = true
+		}
+		return true
+	})
+	rewriteExprs(fd, func(e ast.Expr) ast.Expr {
+		switch v := e.(type) {
+		case *ast.Ident:
+			if lit, ok := constValue(v); ok {
+				return lit
+			}
+		case *ast.CallExpr:
+			if cc, ok := sprintfAsConcat(v); ok {
+				return cc
+			}
+		}
+		return e
+	})
+	// pass 1: which objects are declared inside this function (Object.Pos looks the declaring
+	// identifier up by NAME, so this must be settled before anything is renamed)
+	local := map[*ast.Object]bool{}
+	var order []*ast.Object
+	ast.Inspect(fd, func(n ast.Node) bool {
+		id, ok := n.(*ast.Ident)
+		if !ok || id.Obj == nil || id.Name == "_" {
+			return true
+		}
+		if id.Obj.Kind != ast.Var {
+			return true // constants are resolved by value, labels / types / functions keep their names
+		}
+		if _, seen := local[id.Obj]; seen {
+			return true
+		}
+		p := id.Obj.Pos()
+		local[id.Obj] = p >= fd.Pos() && p <= fd.End()
+		if local[id.Obj] {
+			order = append(order, id.Obj)
+		}
+		return true
+	})
+	names := map[*ast.Object]string{}
+	for i, o := range order {
+		names[o] = fmt.Sprintf("v%d", i)
+	}
+	// pass 2: rename
+	ast.Inspect(fd, func(n ast.Node) bool {
+		if id, ok := n.(*ast.Ident); ok && id.Obj != nil {
+			if nm, ok := names[id.Obj]; ok {
+				id.Name = nm
+			}
+		}
+		return true
+	})
+}
+
+// templateOf renders a string-building expression as a template: literal parts verbatim, every
+// other operand as a hole `{}`; a residual fmt.Sprintf contributes its format with %s -> {},
+// %d -> {d}, %v -> {v}.  ok = the expression has at least one literal part.
+func templateOf(e ast.Expr) (string, bool) {
+	switch v := e.(type) {
+	case *ast.BasicLit:
+		if s, ok := strLit(v); ok {
+			return s, true
+		}
+	case *ast.ParenExpr:
+		return templateOf(v.X)
+	case *ast.BinaryExpr:
+		if v.Op == token.ADD {
+			a, oka := templateOf(v.X)
+			b, okb := templateOf(v.Y)
+			return a + b, oka || okb
+		}
+	case *ast.CallExpr:
+		if selChain(v.Fun) == "fmt.Sprintf" && len(v.Args) >= 1 {
+			if f, ok := strLit(v.Args[0]); ok {
+				r := strings.NewReplacer("%s", "{}", "%d", "{d}", "%v", "{v}")
+				return r.Replace(f), true
+			}
+		}
+	}
+	return "{}", false
+}
+
+// stringTemplates lists, in source order, the templates of the maximal string-building
+// expressions inside n.
+func stringTemplates(n ast.Node) []string {
+	var out []string
+	ast.Inspect(n, func(x ast.Node) bool {
+		if gd, ok := x.(*ast.GenDecl); ok && gd.Tok == token.CONST {
+			return false // a constant's value counts where it is used
+		}
+		e, ok := x.(ast.Expr)
+		if !ok {
+			return true
+		}
+		switch e.(type) {
+		case *ast.BinaryExpr, *ast.CallExpr, *ast.BasicLit:
+			if t, ok := templateOf(e); ok {
+				if _, isCall := e.(*ast.CallExpr); isCall && selChain(e.(*ast.CallExpr).Fun) != "fmt.Sprintf" {
+					return true
+				}
+				out = append(out, t)
+				return false
+			}
+		}
+		return true
+	})
+	return out
 }
